@@ -4,6 +4,8 @@ import (
 	"go/ast"
 	"go/token"
 	"go/types"
+	"golang.org/x/tools/go/cfg"
+	"sort"
 	"strings"
 
 	"engcheck/core"
@@ -14,6 +16,7 @@ func init() {
 		c20LockDiscipline(c)
 		c20MapDiscipline(c)
 		c20AliasUnderLock(c)
+		c20ReloadAgreement(c)
 		lockBalance(c, "C20.1c", "types", "utils")
 		c20NoSharing(c)
 		c20Snapshot(c, "C20.2b")
@@ -854,7 +857,176 @@ func c20Ids(c *core.Ctx, R string) {
 			}
 		}
 		c.Check(R, "utils.(*Yeast).Yeast/one-critical-section", y.Pos(), ok && n >= 4, keyf("%d accesses of clock/prev/seed, all under one mutex (%q): %v", n, lock, ok))
+		c20YeastShape(c, y)
 	}
+}
+
+// c20YeastShape — C20.5b: structure of the yeast id that makes two ids differ.
+func c20YeastShape(c *core.Ctx, y *core.Unit) {
+	const R = "C20.5b"
+	c.Rule(R, "yeast ids differ because (a) the alphabet has 64 distinct one-character digits, none of them the separator '.', and Encode is positional base-len(alphabet): it adds the digit alphabet[num%length] at one end and divides by the same length while num > 0; (b) Yeast returns the bare timestamp only on the now != prev edge, after remembering it (prev.Store(now)), and otherwise timestamp + \".\" + Encode(seed.Add(1)-1) — a fresh counter value per call")
+	info := y.Info()
+	g := y.Graph()
+	// (a) alphabet and Encode
+	pk := c.P.Pkgs["utils"]
+	var alpha *ast.CompositeLit
+	var alphaLen int64
+	for _, f := range pk.Syntax {
+		ast.Inspect(f, func(n ast.Node) bool {
+			vs, ok := n.(*ast.ValueSpec)
+			if !ok {
+				return true
+			}
+			for i, nm := range vs.Names {
+				if nm.Name == "alphabet" && i < len(vs.Values) {
+					if cl, isC := vs.Values[i].(*ast.CompositeLit); isC {
+						alpha = cl
+					}
+				}
+			}
+			return true
+		})
+	}
+	distinct := alpha != nil
+	if alpha != nil {
+		seen := map[string]bool{}
+		for _, el := range alpha.Elts {
+			v, isS := core.ConstString(pk.TypesInfo, el)
+			if !isS || len(v) != 1 || v == "." || seen[v] {
+				distinct = false
+			}
+			seen[v] = true
+		}
+		alphaLen = int64(len(alpha.Elts))
+		if at, isArr := pk.TypesInfo.TypeOf(alpha).(*types.Array); isArr && at.Len() != alphaLen {
+			distinct = false
+		}
+	}
+	length, _ := pkgConstInt(c, "utils", "length")
+	c.Check(R, "utils.alphabet/distinct-single-digits", y.Pos(), distinct && alphaLen == length && length >= 2, keyf("%d digits, all distinct, one character, none is '.', length constant = %d", alphaLen, length))
+	if enc := c.Fn(R, "utils.(*Yeast).Encode"); enc != nil {
+		einfo := enc.Info()
+		num := paramName(enc, 0)
+		var loop *ast.ForStmt
+		ast.Inspect(enc.Body, func(n ast.Node) bool {
+			if fs, ok := n.(*ast.ForStmt); ok && loop == nil {
+				loop = fs
+			}
+			return true
+		})
+		condOK, digitOK, divOK := false, false, false
+		if loop != nil && loop.Cond != nil {
+			if cmp, ok := enc.BranchCmp(core.Branch{Cond: loop.Cond}); ok && isLocal(einfo, cmp.X, num) {
+				if k, ge, isT := cmpThreshold(cmp); isT && k == 1 && ge == 0 {
+					condOK = true
+				}
+			}
+			isLen := func(e ast.Expr) bool {
+				k, isK := core.ConstInt(einfo, e)
+				return isK && k == length
+			}
+			for _, st := range loop.Body.List {
+				as, isA := st.(*ast.AssignStmt)
+				if !isA || len(as.Lhs) != 1 || len(as.Rhs) != 1 {
+					continue
+				}
+				// encoded = alphabet[num%length] + encoded
+				if be, isB := ast.Unparen(as.Rhs[0]).(*ast.BinaryExpr); isB && be.Op == token.ADD && as.Tok == token.ASSIGN && (sameObj(einfo, be.Y, as.Lhs[0]) || sameObj(einfo, be.X, as.Lhs[0])) {
+					digit := be.X
+					if sameObj(einfo, be.X, as.Lhs[0]) {
+						digit = be.Y // appended instead of prepended: reversed digit order, equally injective
+					}
+					if ix, isIx := ast.Unparen(digit).(*ast.IndexExpr); isIx {
+						if id, isId := ix.X.(*ast.Ident); isId && id.Name == "alphabet" {
+							if m, isM := ast.Unparen(ix.Index).(*ast.BinaryExpr); isM && m.Op == token.REM && isLocal(einfo, m.X, num) && isLen(m.Y) {
+								digitOK = true
+							}
+						}
+					}
+				}
+				// num /= length  |  num = num / length
+				if isLocal(einfo, as.Lhs[0], num) {
+					if as.Tok == token.QUO_ASSIGN && isLen(as.Rhs[0]) {
+						divOK = true
+					}
+					if be, isB := ast.Unparen(as.Rhs[0]).(*ast.BinaryExpr); isB && as.Tok == token.ASSIGN && be.Op == token.QUO && isLocal(einfo, be.X, num) && isLen(be.Y) {
+						divOK = true
+					}
+				}
+			}
+		}
+		c.Check(R, "utils.(*Yeast).Encode/positional-base-64", enc.Pos(), condOK && digitOK && divOK, keyf("while num > 0: %v; prepends alphabet[num%%length]: %v; num /= length: %v", condOK, digitOK, divOK))
+	}
+	// (b) return forms
+	var nowObj ast.Expr
+	for _, a := range assignsIn(y, func(l ast.Expr) bool { return isLocal(info, l, "now") }) {
+		if ce, isC := ast.Unparen(a.Rhs).(*ast.CallExpr); isC && calleeNameOf(ce) == "Encode" && len(ce.Args) == 1 {
+			if chain := calleeChain(y, ce.Args[0]); len(chain) >= 2 && chain[0] == "time.Now" {
+				nowObj = a.Lhs
+			}
+		}
+	}
+	neq := func(x *core.Unit, br core.Branch) int {
+		cmp, ok := x.BranchCmp(br)
+		if !ok || nowObj == nil {
+			return 0
+		}
+		if (sameObj(info, cmp.X, nowObj) || sameObj(info, cmp.Y, nowObj)) && !core.IsNil(info, cmp.X) && !core.IsNil(info, cmp.Y) {
+			switch cmp.Op {
+			case token.NEQ:
+				return 1
+			case token.EQL:
+				return -1
+			}
+		}
+		return 0
+	}
+	eq := func(x *core.Unit, br core.Branch) int { return -neq(x, br) }
+	bareOK, seqOK, nb, ns := true, true, 0, 0
+	var storePrev *core.Call
+	for _, cl := range y.Calls() {
+		if cl.Name == "Store" && cl.Recv != nil && fieldOf(info, cl.Recv) == "Yeast.prev" && nowObj != nil && sameObj(info, cl.Arg(0), nowObj) {
+			storePrev = cl
+		}
+	}
+	for _, r := range returnsIn(y) {
+		if len(r.Stmt.Results) != 1 {
+			continue
+		}
+		e := ast.Unparen(r.Stmt.Results[0])
+		if nowObj != nil && sameObj(info, e, nowObj) {
+			nb++
+			bareOK = bareOK && g.GuardedBy(r.Loc, neq) && storePrev != nil && g.Dominates(storePrev.Loc, r.Loc)
+			continue
+		}
+		ns++
+		// now + "." + Encode(seed.Add(1) - 1)
+		okForm := false
+		if be, isB := e.(*ast.BinaryExpr); isB && be.Op == token.ADD {
+			if in, isIn := ast.Unparen(be.X).(*ast.BinaryExpr); isIn && in.Op == token.ADD && nowObj != nil && sameObj(info, in.X, nowObj) {
+				if sep, isS := core.ConstString(info, in.Y); isS && sep == "." {
+					if ce, isC := ast.Unparen(be.Y).(*ast.CallExpr); isC && calleeNameOf(ce) == "Encode" && len(ce.Args) == 1 {
+						fresh := false
+						ast.Inspect(ce.Args[0], func(n ast.Node) bool {
+							if c2, isC2 := n.(*ast.CallExpr); isC2 {
+								if se, isSe := c2.Fun.(*ast.SelectorExpr); isSe && se.Sel.Name == "Add" && fieldOf(info, se.X) == "Yeast.seed" && len(c2.Args) == 1 {
+									if k, isK := core.ConstInt(info, c2.Args[0]); isK && k >= 1 {
+										fresh = true
+									}
+								}
+							}
+							return true
+						})
+						okForm = fresh
+					}
+				}
+			}
+		}
+		seqOK = seqOK && okForm && !g.GuardedBy(r.Loc, neq)
+		_ = eq
+	}
+	c.Check(R, "utils.(*Yeast).Yeast/return-forms", y.Pos(), nowObj != nil && nb == 1 && ns == 1 && bareOK && seqOK,
+		keyf("bare timestamp only on now != prev after prev.Store(now): %v (%d); otherwise now + \".\" + Encode(seed.Add(k)…) with a fresh counter value: %v (%d)", bareOK, nb, seqOK, ns))
 }
 
 // c20Snapshot — C18.2b / C01.8b: the value AllAndClear hands out is a fresh copy.
@@ -947,4 +1119,143 @@ func c20AliasUnderLock(c *core.Ctx) {
 		}
 	}
 	c.Note(keyf("C20.1d: %d uses of storage aliases checked", n))
+}
+
+// c20ReloadAgreement — C20.1e: lock-free retry loops of types.Map validate a reloaded pointer exactly like the first load.
+func c20ReloadAgreement(c *core.Ctx) {
+	const R = "C20.1e"
+	c.Rule(R, "CAS retry loops of the Map entry (sync.Map port): for every e.p.CompareAndSwap whose expected value is a local loaded from e.p, each definition of that local that can reach the CAS (the first Load and the reload after a failed CAS) is followed, on every path to the CAS, by the same set of validation tests on it — one path checking what another skips is a contradiction (the swap would succeed against a value the caller did not name); the set always excludes the expunged marker")
+	n := 0
+	for _, u := range c.P.Units {
+		if u.Pkg != c.P.Pkgs["types"] || !strings.HasSuffix(c.P.PosStr(u.Pos()), "") {
+			continue
+		}
+		if !strings.Contains(c.P.PosStr(u.Pos()), "types/map.go") {
+			continue
+		}
+		info := u.Info()
+		g := u.Graph()
+		isLoad := func(e ast.Expr) bool {
+			ce, ok := ast.Unparen(e).(*ast.CallExpr)
+			if !ok {
+				return false
+			}
+			se, ok := ce.Fun.(*ast.SelectorExpr)
+			return ok && se.Sel.Name == "Load" && fieldOf(info, se.X) == "entry.p"
+		}
+		for _, cl := range u.Calls() {
+			if cl.Name != "CompareAndSwap" || cl.Recv == nil || fieldOf(info, cl.Recv) != "entry.p" {
+				continue
+			}
+			obj := core.ObjOf(info, cl.Arg(0))
+			if _, isVar := obj.(*types.Var); !isVar || obj.Parent() == nil || obj.Pkg() == nil || obj.Parent() == obj.Pkg().Scope() {
+				continue
+			}
+			if _, isField := ast.Unparen(cl.Arg(0)).(*ast.SelectorExpr); isField {
+				continue
+			}
+			var defs []core.Loc
+			allLoads := true
+			for _, d := range u.DefsOf(obj) {
+				if d == nil || !isLoad(d) {
+					allLoads = false
+					continue
+				}
+				defs = append(defs, g.LocOf(d))
+			}
+			if !allLoads || len(defs) == 0 {
+				continue
+			}
+			mentions := func(e ast.Expr) bool {
+				found := false
+				ast.Inspect(e, func(x ast.Node) bool {
+					if id, ok := x.(*ast.Ident); ok && info.Uses[id] == obj {
+						found = true
+					}
+					return true
+				})
+				return found
+			}
+			norm := func(e ast.Expr, val bool) string {
+				e = ast.Unparen(e)
+				if be, ok := e.(*ast.BinaryExpr); ok && (be.Op == token.EQL || be.Op == token.NEQ) {
+					a, b := core.ExprString(be.X), core.ExprString(be.Y)
+					if a > b {
+						a, b = b, a
+					}
+					if be.Op == token.NEQ {
+						val = !val
+					}
+					return keyf("%s == %s:%v", a, b, val)
+				}
+				return keyf("%s:%v", core.ExprString(e), val)
+			}
+			var sets []string
+			var reach []core.Loc
+			for i, d := range defs {
+				var others []core.Loc
+				for j, o := range defs {
+					if j != i {
+						others = append(others, o)
+					}
+				}
+				blockedOthers := func(s core.State) bool {
+					for _, o := range others {
+						if s.B == o.B && s.I == o.I {
+							return true
+						}
+					}
+					return false
+				}
+				goal := func(s core.State) bool { return s.B == cl.Loc.B && s.I == cl.Loc.I }
+				if !g.Reach(g.After(d), goal, blockedOthers, nil) {
+					continue
+				}
+				reach = append(reach, d)
+				var atoms []string
+				for _, f := range g.Facts() {
+					if f.Br.IsCase || !mentions(f.Br.Cond) {
+						continue
+					}
+					fb, fe := f.Br.B, f.Edge
+					if !g.Reach(g.After(d), goal, blockedOthers, func(from *cfg.Block, k int) bool { return !(from == fb && k == fe) }) {
+						atoms = append(atoms, norm(f.Br.Cond, f.Val))
+					}
+				}
+				sort.Strings(atoms)
+				sets = append(sets, strings.Join(atoms, " ∧ "))
+			}
+			if len(reach) == 0 {
+				continue
+			}
+			n++
+			c.Touch(u)
+			same := true
+			for _, x := range sets {
+				if x != sets[0] {
+					same = false
+				}
+			}
+			excl := strings.Contains(sets[0], "expunged == ") // a deleted-and-expunged entry is never revived by a pointer CAS (trySwap may legitimately fill a nil entry)
+			c.Check(R, keyf("%s/CAS(%s)-validated-alike", u.Key, core.ExprString(cl.Arg(0))), cl.Pos(), same && excl,
+				keyf("%d reaching load(s); validation per load: %v", len(reach), sets))
+			// the conditional operations compare the current value with the caller's `old` before every CAS
+			if u.Key == "types.(*entry).tryCompareAndSwap" || u.Key == "types.(*Map).CompareAndDelete" {
+				old := ""
+				for i := 0; i < 4; i++ {
+					if nm := paramName(u, i); nm == "old" {
+						old = nm
+					}
+				}
+				cmpOld := old != ""
+				for _, x := range sets {
+					if !strings.Contains(x, "any(*"+core.ExprString(cl.Arg(0))+") == any("+old+"):true") {
+						cmpOld = false
+					}
+				}
+				c.Check(R, keyf("%s/CAS(%s)-only-when-current==old", u.Key, core.ExprString(cl.Arg(0))), cl.Pos(), cmpOld, "every load that reaches the CAS is compared with the caller's old value")
+			}
+		}
+	}
+	c.Need(R, "CAS sites on a loaded entry pointer", n, 4)
 }
